@@ -35,6 +35,7 @@ type GenCfg struct {
 	Enum        string  // "", "alias", "misuse", "reject": enumeration appended after the random prefix
 	EnumDraws   int
 	MaxLimbBias bool // C09: bias towards carry-free chains
+	BigPool     bool // many slots: long term lists with (nearly) all-distinct operands
 }
 
 // Gen produces the calls of a run from the PRNG and the current world.
@@ -492,7 +493,17 @@ func (g *Gen) buildCall(op *OpDesc) (Call, bool) {
 			return c, false
 		}
 		c.P, c.S = []int{}, []int{}
+		var permP, permS []int
+		if g.cfg.BigPool && rng.Bool(0.6) {
+			// all-distinct operands as far as the pool goes
+			permP, permS = permOf(rng, len(ip)), permOf(rng, len(w.S))
+		}
 		for i := 0; i < n; i++ {
+			if permP != nil {
+				c.P = append(c.P, ip[permP[i%len(permP)]])
+				c.S = append(c.S, permS[i%len(permS)])
+				continue
+			}
 			p := g.pick(ip, usedP)
 			usedP = append(usedP, p)
 			c.P = append(c.P, p)
@@ -574,6 +585,18 @@ func (g *Gen) buildCall(op *OpDesc) (Call, bool) {
 	}
 	if op.Cond {
 		c.C = rng.Intn(2)
+		if op.Dynamic && (g.r.Prop == "C20" || g.r.Prop == "C19") && rng.Bool(0.5) {
+			// the int parameter of an API addition need not be a condition: counts,
+			// exponents and indices have thresholds (small values, round numbers +-1).
+			// Only under oracles that hold whatever the method means (same result in
+			// both builds, same result when re-issued): a condition parameter given 64
+			// may legitimately produce garbage, but the same garbage every time.
+			if rng.Bool(0.3) {
+				c.C = rng.Intn(10)
+			} else {
+				c.C = thresholdSize(rng, 300)
+			}
+		}
 	}
 	if op.Bytes {
 		c.HasB = true
@@ -644,6 +667,13 @@ func (g *Gen) buildCall(op *OpDesc) (Call, bool) {
 		// the input is a window of a larger caller buffer (e.g. h[:32] of a 64-byte hash)
 		c.BPad = []int{1, 32, 32, 64, 100}[rng.Intn(5)]
 		c.BOff = []int{0, 0, 1, 32}[rng.Intn(4)]
+	}
+	if op.Bytes && c.HasB && !c.BNil && rng.Bool(0.3) {
+		// the caller reuses one of its buffers for successive inputs
+		c.BW = 1 + rng.Intn(3)
+		if rng.Bool(0.7) {
+			c.BOff = 0
+		}
 	}
 	if op.Name == "Point.SetExtendedCoordinates" {
 		c.Fault = "reject/sem" // random element quadruples are invalid with overwhelming probability
